@@ -89,7 +89,21 @@ inductive Result where
   | miniconfExc (code : Str) (msg : List Str ⊕ Str)
   | assertionError
   | none_                      -- `dump`: no response requested
+  | indexError                 -- `ret[0]` on an empty list (not reachable in the source as it is: guarded by `len(ret) != 1`)
+  | excObject                  -- a `MiniconfException` object handed back as a value instead of raised (not reachable either)
   deriving Repr, Inhabited
+
+/-- an element of the `ret` list of an in-flight request: a payload text, or (sync client, error response) the exception
+object the dispatcher put there -/
+inductive PyItem where
+  | str (s : Str)
+  | exc (code msg : Str)
+  deriving Repr, DecidableEq, Inhabited
+
+def strsOf : List PyItem → Option (List Str)
+  | [] => some []
+  | .str s :: r => (strsOf r).map (s :: ·)
+  | .exc _ _ :: _ => none
 
 def notALeaf : Str := "Not a leaf".toList
 
@@ -106,6 +120,30 @@ def post (k : Kind) (d : Done) : Result :=
       match ret with
       | [x] => .value x
       | _ => .miniconfExc notALeaf (.inl ret)
+
+/-- `raise MiniconfException("Not a leaf", ret)` -/
+def notLeaf (ret : List PyItem) : Result :=
+  match strsOf ret with
+  | some l => .miniconfExc notALeaf (.inl l)
+  | none => .excObject
+
+/-- `return ret[0]` -/
+def first : List PyItem → Result
+  | .str x :: _ => .value x
+  | .exc _ _ :: _ => .excObject
+  | [] => .indexError
+
+/-- `return ret` -/
+def whole (ret : List PyItem) : Result :=
+  match strsOf ret with
+  | some l => .values l
+  | none => .excObject
+
+/-- the `ret` list `_do` looks at after the wait: the payloads collected by the dispatcher; an error response leaves, in
+the sync client, the one exception object (`ret[:] = [MiniconfException(code, resp)]`) -/
+def itemsOf : Done → List PyItem
+  | .ok ret => ret.map .str
+  | .exc code msg => [.exc code msg]
 
 /-- `_Path.normalize`: the new `current` and the returned absolute path -/
 def normalize (current : Str) (path : Str) : Str × Str :=
